@@ -140,7 +140,7 @@ def handlePolyFft : Handler
     let reslen ← parseNat reslen
     let p ← parsePoly n p; let q ← parsePoly n q
     let (k, r, ri) ← mont n
-    some (showOptArr ((Ymq.Kronecker.convolve true Ymq.Kronecker.cycExact n k ri (Ymq.Checked.bitlen n)
+    some (showOptArr ((Ymq.Kronecker.convolve true Ymq.Kronecker.cycFft n k ri (Ymq.Checked.bitlen n)
       size (toMont n r p) (toMont n r q) reslen offset).map (ofMont n ri)))
   | ["pf_kron_raw", nn, logpack, stride, n, size, offset, reslen, p, q] => do
     let nn ← parseNat nn; let logpack ← parseNat logpack; let stride ← parseNat stride
@@ -148,7 +148,7 @@ def handlePolyFft : Handler
     let reslen ← parseNat reslen
     let p ← parsePoly n p; let q ← parsePoly n q
     let (k, r, ri) ← mont n
-    some (showOptArr ((Ymq.Kronecker.convolveModn true (Ymq.Kronecker.cycExact nn) n k ri nn
+    some (showOptArr ((Ymq.Kronecker.convolveModn true (Ymq.Kronecker.cycFft nn) n k ri nn
       size logpack stride (toMont n r p) (toMont n r q) reslen offset).map (ofMont n ri)))
   | ["pf_from_roots", n, ringsize, roots] => do
     let n ← parseNat n; let ringsize ← parseNat ringsize; let roots ← parsePoly n roots
